@@ -37,7 +37,9 @@ def budget(tier):
 @st.composite
 def _case(draw, big=False):
     case = draw(M.network(max_species=25 if big else 10, max_reactions=60 if big else 12, thermal=True, modifiers=False))
-    case["route"] = draw(st.sampled_from(["api", "api", "file"]))
+    case["route"] = draw(st.sampled_from(["api", "api", "file", "multi"]))
+    if case["route"] == "multi":
+        case["multi_formats"] = draw(st.lists(st.sampled_from(["kida", "umist", "leeds", "uclchem", "naunet"]), min_size=2, max_size=3))
     return case
 
 
@@ -63,8 +65,101 @@ def fixed_cases(tier):
     ]
 
 
+_CODE = {
+    "kida": {100: 3, 101: 1, 102: 2, 110: 4, 111: 5},
+    "umist": {100: "NN", 101: "CP", 102: "PH", 120: "CR"},
+    "leeds": {100: 1, 101: 2, 102: 4, 120: 3},
+    "uclchem": {100: "", 101: "CRP", 102: "PHOTON", 120: "CRPHOT"},
+    "naunet": {t: t for t in (100, 101, 102, 110, 111, 120)},
+}
+
+
+def _fits(fmt, rc, names, case):
+    """Can this abstract reaction be written as one well-formed line of `fmt`?"""
+    from ..gen import lines as L
+
+    if rc["type"] not in _CODE[fmt]:
+        return False
+    if fmt == "naunet":
+        return True
+    sp = [case["pool"][i] for i in rc["r"] + rc["p"]]
+    if any(s.get("s") or s["k"] == "grain" or s.get("l") for s in sp):
+        return False
+    nr = len(rc["r"]) + (1 if (rc.get("pseudo") or (fmt == "umist" and _CODE[fmt][rc["type"]] in ("CP", "PH", "CR")) or (fmt == "uclchem" and _CODE[fmt][rc["type"]])) else 0)
+    if nr > L.N_REACT[fmt] or len(rc["p"]) > L.N_PROD[fmt] or (fmt not in ("kida",) and len(rc["p"]) == 0):
+        return False
+    if rc.get("pseudo") and fmt in ("uclchem", "umist"):
+        return False
+    if rc.get("pseudo") and rc["pseudo"][0] not in L.MARKERS[fmt]:
+        return False
+    return all(len(names[i]) <= L.NAME_LIMIT[fmt] for i in rc["r"] + rc["p"])
+
+
+def build_multi(case):
+    """Reactions are split into contiguous groups, each group written as a file of another format; one Network reads them all."""
+    import os, tempfile
+    from ..gen import formats as F
+    from ..gen import lines as L
+    from naunet.network import Network
+
+    names = N.names_of(case)
+    groups = []  # (fmt, [reaction indices])
+    order = case.get("multi_formats") or ["kida", "umist", "naunet"]
+    k = 0
+    rs = case["reactions"]
+    for gi, fmt in enumerate(order):
+        n = max(1, len(rs) // len(order)) if gi < len(order) - 1 else len(rs) - k
+        idxs = list(range(k, min(len(rs), k + n)))
+        k += len(idxs)
+        sub = []
+        for i in idxs:
+            f = fmt if _fits(fmt, rs[i], N.names_for_reaction(case, rs[i]), case) else "naunet"
+            if sub and sub[-1][0] == f:
+                sub[-1][1].append(i)
+            else:
+                sub.append((f, [i]))
+        groups += sub
+    d = tempfile.mkdtemp(prefix="vt-")
+    paths, fmts = [], []
+    try:
+        for gi, (fmt, idxs) in enumerate(groups):
+            lines = []
+            for i in idxs:
+                rc = rs[i]
+                nm = N.names_for_reaction(case, rc)
+                if fmt == "uclchem":
+                    nm = ["E-" if case["pool"][j]["k"] == "e" else n for j, n in enumerate(nm)]
+                ints = fmt in ("kida", "umist", "leeds")
+                lr = {"fmt": fmt, "r": [nm[j] for j in rc["r"]], "p": [nm[j] for j in rc["p"]], "markers_r": [(1 + q, m) for q, m in enumerate(rc.get("pseudo", []))],
+                      "a": abs(rc["a"]) if fmt == "leeds" else rc["a"], "b": rc["b"], "c": rc["c"], "tmin": int(rc["tmin"]) if ints else rc["tmin"], "tmax": int(rc["tmax"]) if ints else rc["tmax"],
+                      "idx": -1 if fmt == "uclchem" else max(rc.get("idx", -1), 1) if fmt in ("kida", "leeds", "umist") else rc.get("idx", -1), "code": _CODE[fmt][rc["type"]]}
+                if fmt == "leeds":
+                    lr["tmin"], lr["tmax"] = max(lr["tmin"], 0), max(lr["tmax"], 0)
+                    lr["b"] = max(-9999.0, min(9999.0, lr["b"]))
+                if fmt == "umist" and lr["code"] in F.UMIST_MARKER:
+                    lr["markers_r"] = [(1, F.UMIST_MARKER[lr["code"]])]
+                lines.append(L.encode(lr, {"padded": False}))
+            path = os.path.join(d, f"g{gi}.{fmt}")
+            with open(path, "w") as fh:
+                fh.write("\n".join(lines) + "\n")
+            paths.append(path)
+            fmts.append(fmt)
+        return Network(
+            filelist=paths, fileformats=fmts,
+            required_species=[names[i] for i in case.get("required", [])],
+            heating=[f"VT_H{j}" for j in range(len(case.get("heating", [])))],
+            cooling=[f"VT_C{j}" for j in range(len(case.get("cooling", [])))],
+        )
+    finally:
+        import shutil
+
+        shutil.rmtree(d, ignore_errors=True)
+
+
 def build(case):
     """Abstract case -> Network through the chosen route."""
+    if case.get("route") == "multi" and case["reactions"]:
+        return build_multi(case)
     if case.get("route") == "file":
         # write the reactions in the native exchange format with my own encoder, then read the file
         from ..gen import formats as F
